@@ -97,3 +97,24 @@ Print Assumptions C17_read_after_close_fails.
 Theorem C17_total : forall c steps ops, no_panic (fst (run c ops (init c steps))) = true.
 Proof. exact total. Qed.
 Print Assumptions C17_total.
+
+(* ---- two requests in flight, calls interleaved in any order (a caller may keep r.Body of one request and use
+   it - read it, close it again - after the other request has been probed) ---- *)
+
+(* what one request observes does not depend on what is done to the other: its outputs and final state are those of
+   its own calls run alone *)
+Theorem C17_requests_independent : forall cA cB ops sA sB,
+  outs_of false ops (fst (run2 cA cB ops sA sB)) = fst (run cA (calls_of false ops) sA) /\
+  fst (snd (run2 cA cB ops sA sB)) = snd (run cA (calls_of false ops) sA) /\
+  outs_of true ops (fst (run2 cA cB ops sA sB)) = fst (run cB (calls_of true ops) sB) /\
+  snd (snd (run2 cA cB ops sA sB)) = snd (run cB (calls_of true ops) sB).
+Proof. exact run2_alone. Qed.
+Print Assumptions C17_requests_independent.
+
+(* hence every interleaved history satisfies the judgement the correspondence run evaluates on the implementation:
+   for each request the bytes, terminal condition, answers, failing reads after close and the single Close are its own *)
+Theorem C17_interleaved_history_ok : forall cA stepsA cB stepsB ops,
+  let r := run2 cA cB ops (init cA stepsA) (init cB stepsB) in
+  pair_ok cA stepsA cB stepsB ops (fst r) (s_closes (fst (snd r))) (s_closes (snd (snd r))) = true.
+Proof. exact pair_ok_run2. Qed.
+Print Assumptions C17_interleaved_history_ok.
